@@ -20,6 +20,8 @@ struct Case {
     /// doc choice (0 none, 1 one line, 2 three lines with an empty middle line, 3 two lines with a trailing empty line)
     /// for: module, type, enum, field, impl fn, vfunc, variant
     docs: [usize; 7],
+    /// doc comments written after the item's other attributes
+    docs_after: bool,
 }
 
 fn doc_lines(what: &str, choice: usize) -> Vec<String> {
@@ -45,7 +47,7 @@ fn cases(tier: &str) -> Vec<Case> {
                     if em != 0 && em != 7 && !(vis == 0 || vis == 127 || vis == 0b1010101) {
                         continue;
                     }
-                    out.push(Case { vis, pm, tm, em, docs: [1, 1, 0, 1, 0, 1, 0] });
+                    out.push(Case { vis, pm, tm, em, docs: [1, 1, 0, 1, 0, 1, 0], docs_after: (vis + pm) % 2 == 1 });
                 }
             }
         }
@@ -54,8 +56,8 @@ fn cases(tier: &str) -> Vec<Case> {
     let nd: usize = if tier == "thorough" { 4 } else { 3 };
     for idx in 0..nd.pow(7) {
         let d = util::decode(idx, &[nd; 7]);
-        for (vis, pm, tm, em) in [(127u32, 0u32, 0u32, 0u32), (0b0101010, 0b0111, 0b011, 0b111)] {
-            out.push(Case { vis, pm, tm, em, docs: [d[0], d[1], d[2], d[3], d[4], d[5], d[6]] });
+        for (vis, pm, tm, em, docs_after) in [(127u32, 0u32, 0u32, 0u32, false), (0b0101010, 0b0111, 0b011, 0b111, false), (0b0101010, 0b0111, 0b011, 0b111, true)] {
+            out.push(Case { vis, pm, tm, em, docs: [d[0], d[1], d[2], d[3], d[4], d[5], d[6]], docs_after });
         }
     }
     out
@@ -72,12 +74,16 @@ fn spec_of(c: &Case) -> ModuleS {
     let mut t = TypeS::new("T");
     t.public = bit(c.vis, 0);
     t.doc = doc_lines("type", c.docs[1]);
+    // an attribute pyxis does not know (and ignores), so that every documented item also has a
+    // non-doc attribute for the doc comment to come before or after
+    t.extra_attrs = vec!["note(1)".into()];
     t.copyable = bit(c.tm, 0);
     t.cloneable = bit(c.tm, 1);
     t.packed = bit(c.tm, 2);
     let mut v = FuncS::new("v");
     v.public = bit(c.vis, 3);
     v.doc = doc_lines("vfunc", c.docs[5]);
+    v.extra_attrs = vec!["note(2)".into()];
     let mut w = FuncS::new("w");
     w.public = !bit(c.vis, 3);
     w.index = Some(2);
@@ -85,6 +91,7 @@ fn spec_of(c: &Case) -> ModuleS {
     let mut a = FieldS::new("a", MTy::b("u8").cptr());
     a.public = bit(c.vis, 1);
     a.doc = doc_lines("field", c.docs[3]);
+    a.extra_attrs = vec!["note(3)".into()];
     let mut b = FieldS::new("b", MTy::b("u32"));
     b.public = !bit(c.vis, 1);
     let mut gap = FieldS::gap(4);
@@ -121,6 +128,7 @@ fn spec_of(c: &Case) -> ModuleS {
     let mut e = EnumS::new("E", "u16");
     e.public = bit(c.vis, 4);
     e.doc = doc_lines("enum", c.docs[2]);
+    e.extra_attrs = vec!["note(4)".into()];
     e.copyable = bit(c.em, 0);
     e.cloneable = bit(c.em, 1);
     e.defaultable = bit(c.em, 2);
@@ -142,6 +150,11 @@ fn spec_of(c: &Case) -> ModuleS {
         Item::Type(d),
     ];
     m
+}
+
+fn input_of(c: &Case) -> pipe::Input {
+    let m = spec_of(c);
+    pipe::Input { modules: vec![(m.path.clone(), Printer { style: NumStyle::Dec, reverse_type_attrs: false, docs_after_attrs: c.docs_after }.module(&m))] }
 }
 
 fn set(v: &[String]) -> BTreeSet<String> {
@@ -344,7 +357,7 @@ fn judge(c: &Case, text: &str) -> Option<(String, String)> {
 }
 
 pub fn all_inputs(tier: &str) -> Vec<pipe::Input> {
-    cases(tier).iter().map(|c| to_input(&[spec_of(c)])).collect()
+    cases(tier).iter().map(input_of).collect()
 }
 
 pub fn run(tier: &str, only: Option<&Value>) -> i32 {
@@ -362,7 +375,7 @@ pub fn run(tier: &str, only: Option<&Value>) -> i32 {
         };
         let outs = util::par_map(idxs.len(), |j, _| {
             let c = &all[idxs[j]];
-            let input = to_input(&[spec_of(c)]);
+            let input = input_of(c);
             let v = pipe::run(&input, ps);
             let viol = match &v {
                 pipe::Verdict::Panic(p) => Some(("panic".to_string(), p.clone())),
